@@ -1,0 +1,31 @@
+// Copyright ©2024 The bíogo Authors. All rights reserved.
+// Use of this source code is governed by a BSD-style
+// license that can be found in the LICENSE file.
+
+//go:build verif
+
+package bgzf
+
+import (
+	"bytes"
+	"compress/gzip"
+)
+
+// VerifNewBlock manufactures a Block with the given base, member size
+// (so that NextBase is base+size) and used flag, for driving Cache
+// implementations from outside the package.
+func VerifNewBlock(base int64, size int, used bool) Block {
+	b := &block{}
+	VerifOverwriteBlock(b, base, size, used)
+	return b
+}
+
+// VerifOverwriteBlock makes b hold another member, the way a Reader
+// recycles a Block that a Cache handed back.
+func VerifOverwriteBlock(blk Block, base int64, size int, used bool) {
+	b := blk.(*block)
+	b.setBase(base)
+	b.h = gzip.Header{Extra: []byte{'B', 'C', 2, 0, byte(size - 1), byte((size - 1) >> 8)}}
+	b.buf = bytes.NewReader(b.data[:0])
+	b.used = used
+}
